@@ -3,7 +3,7 @@
 //
 //   node runner.js <request.json>        (or the request on stdin)
 //
-// request : { programs: [js text, ...], timeoutMs, maxLines, stackMb?, heapMb? }
+// request : { programs: [js text, ...], timeoutMs, maxLines, stackMb?, heapMb?, watchdogMs? }
 // response: one JSON object per line on stdout (fd 1), in program order, written as soon as the
 //           program has finished:
 //   { end: "return" | "panic" | "vecbounds" | "stack" | "timeout" | "lines" | "syntax" | "fault"
@@ -14,8 +14,9 @@
 // A line { fatal: "..." } reports a failure of the driver itself.
 //
 // The main thread only supervises. The programs run in a worker_threads Worker whose
-// resourceLimits give it a big stack (deep but legitimate recursion must work, and infinite
-// recursion must end in a catchable RangeError rather than a segfault) and a capped heap (running
+// resourceLimits give it its stack (stackMb, default 16: the thread stack and V8's limit are sized
+// together, so deep but legitimate recursion works and infinite recursion ends in a catchable
+// RangeError rather than a segfault; exhausting costs ~3 ms per MB) and a capped heap (running
 // out of memory kills only the worker; the supervisor attributes it to the running program and
 // starts a new worker for the rest).
 
@@ -233,7 +234,7 @@ function supervisorMain() {
   const stackMb = req.stackMb || 16;
   const heapMb = req.heapMb || 512;
   // backstop for things the vm timeout cannot interrupt
-  const watchdogMs = timeoutMs * 2 + 5000;
+  const watchdogMs = req.watchdogMs ? Math.max(1, req.watchdogMs | 0) : timeoutMs * 2 + 5000;
 
   let next = 0; // index of the first program without an answer
   const launch = () => {
